@@ -179,15 +179,13 @@ EvalCall(n, cur, root, env) ==
                 IF n.as[i].k = "expref" THEN Null ELSE Eval(n.as[i], cur, root, env)]
       g   == Gather(os)
   IN
-  IF f = <<110,111,116,95,110,117,108,108>>
-  THEN \* the first argument that is not null decides; failures in later
-       \* arguments are left open
-       LET nz == { i \in 1..Len(os) : os[i] # Null } IN
-       IF nz = {} THEN Null
-       ELSE LET i == CHOOSE i \in nz : \A j \in nz : i <= j IN
-            IF IsAny(os[i]) THEN Open
-            ELSE IF IsErr(os[i]) THEN g
-            ELSE IF g # Null THEN Open ELSE os[i]
+  \* "Functions are evaluated in applicative order ... each argument expression must be evaluated before
+  \* evaluating the function": a failing argument fails the call, for not_null as for every other function
+  \* (until the audit of round 8 a failure AFTER the first non-null argument was left open here, after
+  \* the implementation's short-circuit)
+  IF f = <<110,111,116,95,110,117,108,108>> /\ g = Null
+  THEN LET nz == { i \in 1..Len(os) : os[i] # Null } IN
+       IF nz = {} THEN Null ELSE os[CHOOSE i \in nz : \A j \in nz : i <= j]
   ELSE IF g # Null THEN g
   ELSE IF sig.refs = {} THEN Builtin(f, os)
   ELSE IF f = <<109,97,112>>
